@@ -10,7 +10,8 @@ CHECKS = {
             "Thousands of generated trees (boundary-biased sizes, pieces straddling 2..40 files, empty files, "
             "sort-trap names) are created through TorrentFile and the CLI under all progress modes and permuted "
             "directory enumeration; an independent BEP 3 hashing of the files on disk judges files list, lengths, "
-            "piece length and pieces. Exploration, not proof: held on the generated inputs only."),
+            "piece length and pieces; a fifth of the cases re-create the same path after the tree changed in the same "
+            "process, others reach the content path through a list-valued option. Exploration, not proof."),
     "C02": ("exploration", "3.C02", "reference-model monitor: two independent BEP 52 merkle formulations vs. file tree / piece layers",
             "Every creator that writes v2 data (TorrentFileV2, TorrentFileHybrid, TorrentAssembler 2/3, CLI) is run on "
             "generated trees whose sizes hit every padding rule; roots and piece layers are compared with two "
@@ -25,7 +26,9 @@ CHECKS = {
     "C05": ("exploration", "3.C05", "differential monitor: recheck of intact content for tool-made and reference-encoded metafiles",
             "Intact generated trees with metafiles from all creators and from an independent spec-conformant encoder "
             "(unsorted v1 order, BEP 47 padding, v2 single file without length, hybrid with/without trailing pad, "
-            "extra keys) are rechecked via the payload root and via its parent; both must give exactly 100."),
+            "extra keys, hash strings that are valid UTF-8, metafiles that went through edit first) are rechecked via the "
+            "payload root and via its parent, also after earlier (failing) rechecks in the same process; both must "
+            "give exactly 100.  One known finding (parent named like the payload) is classified by an exact defect model."),
     "C06": ("exploration", "3.C06", "strict reference bencode decoder + structural schema on every file written by create and by each edit step",
             "Every metafile written by any creator with any option subset and after every step of random edit "
             "histories (library and CLI) is parsed by a strict byte-level decoder reporting unsorted / duplicate "
@@ -69,7 +72,9 @@ CHECKS = {
             "Batches of v1/v2/hybrid torrents whose files are scattered by basename over several search directories "
             "next to junk and same-name decoys (enumeration permuted) are rebuilt through Assembler and the CLI; every "
             "listed file must exist with its length, the destination must verify at 100% and the count must not exceed "
-            "the files present."),
+            "the files present.  Includes two-phase rebuilds, file search paths, UTF-8-valid hashes, edited metafiles and "
+            "same-name decoys that share their beginning with the genuine file (known finding, exact defect model, "
+            "pinned witness)."),
     "C14": ("exploration", "3.C14", "invariant monitor: before/after snapshots + audit-event log around (repeated) rebuilds",
             "As C13 with pre-populated destinations (correct / wrong / shorter / unrelated files) and 1-3 consecutive "
             "rebuilds; snapshots and the audit log of every write-class event show that sources and metafiles are "
@@ -80,7 +85,8 @@ CHECKS = {
             "torrentfile.edit/commands and pyben; wrappers on every write-class primitive, cross-checked against the "
             "audit hook) and then re-run once per fault point in a forked process: process death before lines and "
             "before/after operations and after k bytes of each write, EACCES/ENOSPC/EIO at each operation, short write, "
-            "error on close, un-encodable values.  The metafile path must hold exactly the old or the new bytes. "
+            "silent short write, error on close, fault SEQUENCES (edit 1 survives an I/O error, edit 2 is then faulted), "
+            "read-only metafiles, un-encodable values.  The metafile path must hold exactly the old or the new bytes. "
             "Enumeration is exhaustive over operations and over distinct lines (first/last occurrence) of the traced "
             "run, sampled over repeated line events."),
     "C18": ("exploration", "3.C18", "invariant monitor: sandbox snapshots + audit-event log around every CLI command",
